@@ -767,6 +767,10 @@ class Executor:
             lo, hi = pa.range(facts)
             if op == "Div" and lo is not None and lo >= 0 and cb and cb > 0:
                 register_range(at, lo // cb, hi // cb)
+            elif op == "Div" and lo is not None and lo >= 0 and cb is None:
+                blo, bhi = pb.range(facts)
+                qlo = 1 if (blo is not None and blo >= 1 and facts.entails_ge0(pa - pb, 2, 2)) else 0
+                register_range(at, qlo, hi)
             elif op == "Rem" and lo is not None and lo >= 0 and cb and cb > 0:
                 register_range(at, 0, cb - 1)
             else:
@@ -876,8 +880,6 @@ class Executor:
                 is_mut = bool(rv.get("mut"))
             else:
                 is_mut = "Mut" in rv.get("kind", "")
-            if is_mut and self.write_log is not None:
-                self.write_log.add((root, tuple(path)))
             return Ptr(root, path, meta, pt, is_mut)
         if k == "cast":
             v = self.operand(st, fr, rv["op"])
@@ -1286,12 +1288,23 @@ class Executor:
             written |= new
         else:
             raise Undecided("loop havoc set did not stabilise in %s" % lid)
+        entry_values = {}
+        if not self.dry:
+            for (r, pth) in written:
+                try:
+                    saved, self.write_log = self.write_log, None
+                    entry_values[self.describe_loc(r, pth)] = self.read(st, r, pth)
+                except Undecided:
+                    pass
+                finally:
+                    self.write_log = saved
         self.havoc(st, fr, written, lid)
         if not self.dry:
-            self.loops[lid] = {"cont": [], "fn": fr.fn_id, "header": header,
+            self.loops[lid] = {"cont": [], "fn": fr.fn_id, "header": header, "entry_values": entry_values, "entry_state": None,
                                "havoc": sorted(self.describe_loc(r, p) for r, p in written),
                                "span": fr.body["blocks"][header]["term"].get("span"), "exits": []}
             st.trace.append(LoopMark(lid))
+            self.loops[lid]["entry_state"] = st.fork()
         rets, exits = self.run_blocks(fr, {header: [st]}, blocks, header)
         if not self.dry:
             self.loops[lid]["exits"] = sorted(exits)
@@ -1776,7 +1789,7 @@ class Executor:
         return [(st, ret)]
 
     # ================================================================ entry points
-    def run_entry(self, rec, subst=None, args=None, arg_names=None):
+    def run_entry(self, rec, subst=None, args=None, arg_names=None, assume=None):
         """symbolically execute body `rec` from a fresh state. args: optional list of values
         (None entries are replaced by symbols named after the parameter)."""
         self.terminated = []
@@ -1802,6 +1815,8 @@ class Executor:
                 nm = (arg_names or {}).get(i) or names.get(i) or "arg%d" % i
                 v = self.mk_sym(self.normalize(self.local_ty(fr, i)), nm)
             st.mem[("L", fr.fid, i)] = v
+        for q in (assume or []):
+            st.facts.add_fact_ge0(q)
         outs, _ = self.run_blocks(fr, {0: [st]})
         res = Result()
         res.entry = rec["id"]
